@@ -1,5 +1,37 @@
-from . import devprops
+"""C07 - configuration outside Netspoc's scope is never touched."""
+import json, os, shutil
+from . import common as C, devprops, sessprops as SP
+
+
+def nsx_sessions(rep, bins):
+    """NSX: the filter `id has the Netspoc prefix` lives in the session loader, not in the planner, so it is
+    exercised with real sessions: the simulated manager also holds a policy, a group and a service without the
+    prefix; SessionTrace.tla flags every changing request that addresses such an object."""
+    root = C.sub("c07nsx")
+    pars = [dict(type="nsx", fe=fe, verb="approve", nameOK=True, marker="unconfigured", ha="off", n=n, foreign=True)
+            for fe in ("drc", "doapprove") for n in (0, 1)]
+    traces, results = [], []
+    for i, p in enumerate(pars):
+        r = SP.one_session(bins, root, p)
+        results.append(r)
+        traces.append(SP.to_trace(i + 1, p, r, -1, "", []))
+    path = os.path.join(root, "s.ndjson")
+    C.write_ndjson(path, [e for t in traces for e in t])
+    res = C.run_tlc(SP.SPEC, "SessionTrace", "SessionTrace.cfg", env={"TRACE": path}, timeout=600)
+    C.tlc_ok(res, "SessionTrace (NSX objects without prefix)")
+    rep.add_states(res)
+    nchg = sum(1 for r in results for x in r["transcript"] if x.get("class") == "change")
+    if nchg == 0:
+        raise C.Broken("NSX sessions with foreign objects sent no change request at all")
+    for v in res.verr:
+        if v[3] in ("C07", "C06", "C09"):
+            p = pars[v[1] - 1]
+            rep.known_or_violation(v[5] if len(v) > 5 else "", "%s: %s (NSX session %s)" % (v[3], v[4], json.dumps(p)),
+                                   {"property": "C07", "nsx_session": p})
+    rep.cov["nsx_sessions_with_foreign_objects"] = len(pars)
+    rep.cov["nsx_change_requests_checked"] = nchg
+    shutil.rmtree(root, ignore_errors=True)
 
 
 def run(tier, replay=None):
-    return devprops.run("C07", tier, replay)
+    return devprops.run("C07", tier, replay, extra=nsx_sessions)
